@@ -10,7 +10,7 @@
    addresses; [saved_bytes s i] are the bytes the save command writes for transfer number i; [s_fs s] is the
    file system (path -> content); [s_pub s] the published tree items. *)
 From Coq Require Import List NArith Bool.
-From AdltV Require Import Base.Res Base.MachInt FileTransfer.Ft FileTransfer.FtProofs FileTransfer.FtRecover FileTransfer.FtSave Exec.C17.
+From AdltV Require Import Base.Res Base.MachInt FileTransfer.Ft FileTransfer.FtProofs FileTransfer.FtRecover FileTransfer.FtSave FileTransfer.FtReannounce Exec.C17.
 Import ListNotations.
 Open Scope N_scope.
 
@@ -132,6 +132,80 @@ Theorem C17_saved_only_complete : forall c fs ms s rets i d,
   exists t, nth_error (s_transfers s) i = Some t /\ t_state t = Complete.
 Proof. exact saved_only_complete. Qed.
 
+
+(* (2r) Several transfers over time under ONE key (the same file sent again, a recycled serial, a retry after a broken
+   transfer).  Every announcement opens a new transfer and `transfers_idx.insert` OVERWRITES the key's binding.
+   [opens c k m]: m is an announcement that opens a transfer for k; [own_part c k post]: the log after an
+   announcement for k up to (not including) the next announcement for k.
+
+   (a) After an announcement for k -- whatever older transfers with this key exist, in whatever state -- and as long
+   as no further announcement for k follows, k is bound to the transfer THIS announcement opened (its number is the
+   number of transfers that existed before): that is the one the following packages and the end marker go to. *)
+Theorem C17_reannounce_routes_to_newest : forall c fs pre m seg k f s rets,
+  flst_of c m = Some (k, f) -> Forall (fun x => opens c k x = false) seg ->
+  run c (init_st fs) (pre ++ m :: seg) = Ok (s, rets) ->
+  exists s0 r0, run c (init_st fs) pre = Ok (s0, r0) /\
+    lookup_key k (s_idx s) = Some (length (s_transfers s0)) /\
+    exists t, nth_error (s_transfers s) (length (s_transfers s0)) = Some t /\ t_key t = k /\ t_name t = f_name f.
+Proof. exact reannounce_routes_to_newest. Qed.
+
+(* (b) The transfer opened by the announcement m, if it is Complete at the end of ANY log, consists of packages 1..n
+   found after m and before the next announcement for its key (sub-sequence of THAT part of the log only), with the
+   sizes m announced; the save command and the auto-saved file deliver their concatenation.  So a Complete transfer
+   never mixes bytes sent under two announcements, and a re-sent file never "repairs" the damaged earlier transfer. *)
+Theorem C17_complete_from_own_announcement : forall c fs pre m post k f s rets,
+  flst_of c m = Some (k, f) ->
+  run c (init_st fs) (pre ++ m :: post) = Ok (s, rets) ->
+  exists s0 r0, run c (init_st fs) pre = Ok (s0, r0) /\
+  exists t, nth_error (s_transfers s) (length (s_transfers s0)) = Some t /\ t_key t = k /\ t_name t = f_name f /\ t_nr t = f_nr f /\
+    (t_state t = Complete ->
+       exists pk : list (N * list N),
+         sublist pk (ops_for c k (own_part c k post)) /\
+         map fst pk = nums 1 (length pk) /\ N.of_nat (length pk) = f_nr f /\ sizes_ok (f_bs f) (f_nr f) pk /\
+         (f_size f = 0 \/ f_size f = lenN (concat (map snd pk))) /\
+         t_size t = lenN (concat (map snd pk)) /\
+         (forall d, saved_bytes s (length (s_transfers s0)) = Some d -> d = concat (map snd pk)) /\
+         (forall p, t_saved t = Some p -> lookup_path p (s_fs s) = Some (concat (map snd pk))) /\
+         (t_data t = [] \/ t_data t = concat (map snd pk))).
+Proof. exact complete_from_own_announcement. Qed.
+
+(* (c) Once its key is announced again (by m), the older transfer (opened by m0) never changes any more, whatever follows:
+   same state, counters and data as right after m, same bytes from the save command, and the key never points to it again. *)
+Theorem C17_superseded_frozen : forall c fs pre0 m0 mid m post k f0 f s rets,
+  flst_of c m0 = Some (k, f0) -> flst_of c m = Some (k, f) ->
+  run c (init_st fs) (pre0 ++ m0 :: mid ++ m :: post) = Ok (s, rets) ->
+  exists s0 r0 s2 r2,
+    run c (init_st fs) pre0 = Ok (s0, r0) /\ run c (init_st fs) (pre0 ++ m0 :: mid ++ [m]) = Ok (s2, r2) /\
+    nth_error (s_transfers s) (length (s_transfers s0)) = nth_error (s_transfers s2) (length (s_transfers s0)) /\
+    saved_bytes s (length (s_transfers s0)) = saved_bytes s2 (length (s_transfers s0)) /\
+    lookup_key k (s_idx s) <> Some (length (s_transfers s0)).
+Proof. exact superseded_frozen_announced. Qed.
+
+(* non-vacuity / the history of the class: a file of 4+4+4+2 bytes is announced under key (7, 0, 17), its last package is
+   lost (end marker arrives); the same key is announced again with a file of the same size and other content, which
+   arrives completely.  Transfer 0 stays Started (3 of 4 packages) and has nothing to save, transfer 1 is Complete with
+   exactly the second file; the key points to transfer 1. *)
+Example C17_reannounce_nonvacuous :
+  let c := mkCfg true true false None None None None in
+  let ext n := Some (1, 2, 65, n) in
+  let ann := expand_msg (7, 0, ext 8, BFlst false 2 17 [97] 14 4 4) in
+  let pk j d := expand_msg (7, 0, ext 5, BFlda false 2 6 17 j TI_RAWD d) in
+  let fin := expand_msg (7, 0, ext 3, BFlfi false 2 17) in
+  let first := [pk 1 [65; 65; 65; 65]; pk 2 [66; 66; 66; 66]; pk 3 [67; 67; 67; 67]; fin] in
+  let second := [pk 1 [97; 97; 97; 97]; pk 2 [98; 98; 98; 98]; pk 3 [99; 99; 99; 99]; pk 4 [100; 100]; fin] in
+  exists f s rets t0 t1,
+    flst_of c ann = Some ((7, 0, 17), f) /\ Forall (fun x => opens c (7, 0, 17) x = false) second /\
+    run c (init_st []) ((ann :: first) ++ ann :: second) = Ok (s, rets) /\
+    s_transfers s = [t0; t1] /\ t_state t0 = Started /\ t_next t0 = 4 /\ saved_bytes s 0 = None /\
+    t_state t1 = Complete /\ lookup_key (7, 0, 17) (s_idx s) = Some 1%nat /\
+    saved_bytes s 1 = Some [97; 97; 97; 97; 98; 98; 98; 98; 99; 99; 99; 99; 100; 100].
+Proof.
+  cbv zeta. eexists. eexists. eexists. eexists. eexists.
+  split; [vm_compute; reflexivity|]. split; [repeat constructor|].
+  split; [vm_compute; reflexivity|]. split; [vm_compute; reflexivity|].
+  vm_compute. repeat split; reflexivity.
+Qed.
+
 (* what is reported (the tree items published by the last update_state) shows the current state of every transfer *)
 Theorem C17_published_states_current : forall c fs ms s rets,
   run c (init_st fs) ms = Ok (s, rets) ->
@@ -247,6 +321,10 @@ Print Assumptions C17_inorder_complete_exact.
 Print Assumptions C17_recovered_complete_exact.
 Print Assumptions C17_complete_implies_exact.
 Print Assumptions C17_complete_needs_every_package.
+Print Assumptions C17_reannounce_routes_to_newest.
+Print Assumptions C17_complete_from_own_announcement.
+Print Assumptions C17_superseded_frozen.
+Print Assumptions C17_reannounce_nonvacuous.
 Print Assumptions C17_stored_equals_counted.
 Print Assumptions C17_save_writes_exact.
 Print Assumptions C17_save_refused_changes_nothing.
